@@ -62,10 +62,16 @@ def mk(spec):
         return decimal.Decimal(spec[1])
     if k == "date":
         return datetime.date(*spec[1])
-    if k == "datetime":
-        return datetime.datetime(*spec[1])
-    if k == "time":
-        return datetime.time(*spec[1])
+    if k == "datetime":  # [y, m, d, H, M, S, us] and optionally a zone: minutes east of UTC, or the name of a zone
+        return datetime.datetime(*spec[1][:7], tzinfo=mk_zone(spec[1][7])) if len(spec[1]) > 7 else datetime.datetime(*spec[1])
+    if k == "time":  # [H, M, S, us] and optionally a zone
+        return datetime.time(*spec[1][:4], tzinfo=mk_zone(spec[1][4])) if len(spec[1]) > 4 else datetime.time(*spec[1])
+    if k == "intpow":  # sign * base ** exp + add: integers of thousands of digits without writing the digits into the case
+        return spec[1][0] * spec[1][1] ** spec[1][2] + spec[1][3]
+    if k == "strrep":
+        return spec[1][0] * spec[1][1]
+    if k == "bytesrep":
+        return spec[1][0] * spec[1][1]
     if k == "timedelta":
         return datetime.timedelta(days=spec[1][0], seconds=spec[1][1], microseconds=spec[1][2])
     if k == "td64":
@@ -74,8 +80,8 @@ def mk(spec):
         if unit == "generic":
             return numpy.timedelta64(n)
         return numpy.timedelta64(n, unit) if step == 1 else numpy.timedelta64(n, (unit, step))
-    if k == "dt64":
-        return numpy.datetime64(spec[1])
+    if k == "dt64":  # ISO text, or [count, unit]: the 64-bit count of ticks since the epoch
+        return numpy.datetime64(spec[1][0], spec[1][1]) if isinstance(spec[1], list) else numpy.datetime64(spec[1])
     if k == "mdn":
         import pyarrow
 
@@ -99,6 +105,14 @@ def mk(spec):
     if k == "complex":
         return complex(spec[1][0], spec[1][1])
     raise ValueError("bad cell spec %r" % (spec,))
+
+
+def mk_zone(z):
+    if isinstance(z, int):
+        return datetime.timezone(datetime.timedelta(minutes=z))
+    import zoneinfo
+
+    return zoneinfo.ZoneInfo(z)
 
 
 def printable(s):
@@ -944,7 +958,7 @@ def valid_case(c):
         if k in ("render", "total"):
             if not (isinstance(c["limit"], int) and c["limit"] >= 1 and c["maxcol"] >= 1 and c["dw"] >= 1):
                 return False
-            if c.get("coltypes") is not None and len(c["coltypes"]) != len(c["names"]):
+            if c.get("coltypes") is not None and (len(c["coltypes"]) != len(c["names"]) or any(t not in COLTYPES for t in c["coltypes"])):
                 return False
             if c.get("aliases") is not None and (c.get("coltypes") is None or len(c["aliases"]) != len(c["names"])
                                                  or any(not isinstance(a, str) for al in c["aliases"] for a in al)):
@@ -1068,9 +1082,13 @@ def frame_shrink(case, still):
 
 
 def report_fail(ctx, case, clause, model=None):
+    known0 = k_int_beyond_str_digits(case, {"clause": clause})
+
     def still(c2):
         if not valid_case(c2) or c2.get("kind") != case["kind"]:
             return False
+        if k_int_beyond_str_digits(c2, {"clause": clause}) != known0:
+            return False  # shrinking neither enters nor leaves the open finding C18-K01
         try:
             return _norm(outcome(c2)[0]) == _norm(clause)
         except InfraError:
@@ -1280,6 +1298,8 @@ def gen_bytes(rng, ascii_only=False):
 
 def gen_model_cell(rng, ctrl):
     """A cell of a kind the Lean model formats (ASCII content)."""
+    if rng.random() < 0.06:
+        return gen_edge_cell(rng, model=True)
     k = rng.randrange(16)
     if k == 0:
         return ["none"]
@@ -1347,6 +1367,8 @@ def gen_td64(rng, nat=0.04):
 
 def gen_any_cell(rng, depth=1):
     """Every value kind the statement lists."""
+    if rng.random() < 0.08:
+        return gen_edge_cell(rng)
     k = rng.randrange(30)
     if k < 16:
         c = gen_model_cell(rng, True)
@@ -1531,6 +1553,171 @@ EXOTIC = [
 ]
 
 
+# --------------------------------------------------------------------------- edge values (seventh pass)
+
+EDGE_OFFSETS = [1, -1, 59, -59, 60, -60, 300, -300, 330, 345, -570, 720, -720, 765, 840, 1439, -1439]
+EDGE_ZONES = ["Pacific/Kiritimati", "Pacific/Pago_Pago", "America/New_York", "Asia/Kolkata", "Europe/London", "Australia/Lord_Howe", "UTC"]
+DT_MAX = [9999, 12, 31, 23, 59, 59, 999999]
+DT_MIN = [1, 1, 1, 0, 0, 0, 0]
+DT64_UNITS = ["Y", "M", "W", "D", "h", "m", "s", "ms", "us", "ns", "ps", "fs", "as"]
+_ZONES = None
+
+
+def edge_zones():
+    """The named zones this machine has (none without a zone database: the fixed offsets remain)."""
+    global _ZONES
+    if _ZONES is None:
+        _ZONES = []
+        try:
+            import zoneinfo
+
+            for z in EDGE_ZONES:
+                try:
+                    zoneinfo.ZoneInfo(z)
+                    _ZONES.append(z)
+                except Exception:  # noqa
+                    pass
+        except Exception:  # noqa
+            pass
+    return _ZONES
+
+
+def _dt_fields(d):
+    return [d.year, d.month, d.day, d.hour, d.minute, d.second, d.microsecond]
+
+
+def gen_edge_datetime(rng):
+    """An aware timestamp within (twice) its offset of datetime.min / datetime.max — on either side of the point where
+    its UTC equivalent leaves the years 1..9999 —, or a naive one at the two ends."""
+    r = rng.random()
+    if r < 0.12:
+        return ["datetime", rng.choice([DT_MIN, DT_MAX, [1, 1, 1, 0, 0, 0, 1], [9999, 12, 31, 0, 0, 0, 0]])]
+    zones = edge_zones()
+    zone = rng.choice(zones) if zones and rng.random() < 0.3 else (rng.choice(EDGE_OFFSETS) if rng.random() < 0.7 else rng.randint(-1439, 1439))
+    span = 2 * abs(zone) + 2 if isinstance(zone, int) else 2 * 14 * 60
+    back = datetime.timedelta(minutes=rng.randint(0, span), seconds=rng.choice([0, 0, 1, 59]), microseconds=rng.choice([0, 0, 1, 999999]))
+    if rng.random() < 0.25:
+        back = datetime.timedelta(0)
+    if rng.random() < 0.5:
+        return ["datetime", _dt_fields(datetime.datetime.max - back) + [zone]]
+    return ["datetime", _dt_fields(datetime.datetime.min + back) + [zone]]
+
+
+EDGE_FIXED = {
+    "date": [["date", [1, 1, 1]], ["date", [9999, 12, 31]], ["date", [1, 1, 2]], ["date", [9999, 12, 30]]],
+    "time": [["time", [0, 0, 0, 0]], ["time", [23, 59, 59, 999999]], ["time", [0, 0, 0, 0, 1439]], ["time", [23, 59, 59, 999999, -1439]],
+             ["time", [0, 0, 0, 1, -1]], ["time", [23, 59, 59, 999999, 1]], ["time", [12, 0, 0, 0, 0]]],
+    "timedelta": [["timedelta", [-999999999, 0, 0]], ["timedelta", [999999999, 86399, 999999]], ["timedelta", [0, 0, 1]], ["timedelta", [-1, 86399, 999999]],
+                  ["timedelta", [999999999, 0, 0]], ["timedelta", [-999999999, 86399, 999999]]],
+    "dec": [["dec", x] for x in ["1E+999999999999999999", "-9.999999E+999999999999999999", "1E-999999999999999999", "1E-1999999999999999997",
+                                 "-1E-1999999999999999997", "0E+999999999999999999", "-0E-999999999999999999", "sNaN", "-sNaN", "-0", "-NaN999",
+                                 "1E+4300", "1E-4300", "1." + "3" * 300, "9" * 400, "Infinity", "-Infinity", "1E+1000000", "123.456E-1000000"]],
+    "int": [["int", 2**63 - 1], ["int", -(2**63)], ["int", 2**64], ["intpow", [1, 10, 4299, 0]], ["intpow", [1, 10, 4300, -1]], ["intpow", [-1, 10, 4300, 1]],
+            ["intpow", [1, 2, 14000, 0]], ["intpow", [1, 10, 1000, 7]]],
+    "float": [["float", x] for x in [1.7976931348623157e308, -1.7976931348623157e308, 5e-324, -5e-324, 2.2250738585072014e-308, float("nan"),
+                                     float("inf"), float("-inf"), -0.0, 1e16, 9007199254740993.0, 1e-5, 0.1 + 0.2]],
+    "text": [["strrep", ["x", 20000]], ["strrep", ["ab ", 3000]], ["strrep", ["a\n", 4000]], ["strrep", ["\u65e5", 5000]], ["strrep", ["\x01", 3000]],
+             ["strrep", ["\U0001f600", 2000]]],
+    "bytes": [["bytesrep", [b"\xff", 20000]], ["bytesrep", [b"ab", 10000]], ["bytesrep", [b"\x00\n", 5000]], ["bytesrep", [b"\xe6\x97", 5001]]],
+    "dt64": [["dt64", [n, u]] for u in DT64_UNITS for n in (2**63 - 1, -(2**63) + 1)] + [["dt64", [0, "as"]], ["dt64", [-1, "ns"]], ["dt64", [2**62, "us"]],
+                                                                                       ["dt64", [-(2**62), "D"]], ["dt64", [9999 - 1970, "Y"]], ["dt64", [10000 - 1970, "Y"]],
+                                                                                       ["dt64", [-1970, "Y"]], ["dt64", [-1971, "Y"]]],
+    "td64": [["td64", [n, u, 1]] for u in TD_UNITS for n in (2**63 - 1, -(2**63) + 1)],
+    "np": [["np", "int64", -(2**63)], ["np", "int64", 2**63 - 1], ["np", "uint64", 2**64 - 1], ["np", "int8", -128], ["np", "float64", 1.7976931348623157e308],
+           ["np", "float64", 5e-324], ["np", "float32", 3.4028234663852886e38], ["np", "float32", 1e-45], ["np", "float16", 65504.0], ["np", "float16", 6e-8],
+           ["np", "longdouble", 1.7976931348623157e308], ["np", "float64", float("-inf")]],
+}
+# more digits than str() of an int gives (sys.get_int_max_str_digits(), 4300 unless configured): the open finding C18-K01
+EDGE_BEYOND = [["intpow", [1, 10, 4300, 0]], ["intpow", [-1, 10, 5000, 0]], ["intpow", [1, 2, 20000, 1]], ["list", [["intpow", [1, 10, 4300, 0]]]]]
+EDGE_MODEL_KINDS = ("datetime", "date", "time", "timedelta", "dec", "int", "float", "text", "bytes", "td64")
+
+
+def edge_ascii_ok(spec):
+    return not (spec[0] in ("strrep", "bytesrep") and not all(32 <= (c if isinstance(c, int) else ord(c)) < 127 for c in spec[1][0]))
+
+
+def gen_edge_cell(rng, model=False, small=False):
+    """A value at an edge of the range of its kind. `model`: kinds the Lean model formats, printable ASCII content;
+    `small`: nothing longer than a few thousand characters."""
+    kinds = EDGE_MODEL_KINDS if model else ("datetime",) + tuple(EDGE_FIXED)
+    k = rng.choice(kinds + ("datetime", "datetime"))
+    if k == "datetime":
+        return gen_edge_datetime(rng)
+    c = rng.choice(EDGE_FIXED[k])
+    if k == "time" and rng.random() < 0.3 and edge_zones() and len(c[1]) == 4:
+        c = ["time", c[1] + [rng.choice(edge_zones())]]
+    if model and not edge_ascii_ok(c):
+        c = ["strrep", ["xy", 700]]
+    if (model or small) and c[0] in ("strrep", "bytesrep"):
+        c = [c[0], [c[1][0], min(c[1][1], 1500)]]
+    if not model and not small and rng.random() < 0.04:
+        c = rng.choice(EDGE_BEYOND)
+    return c
+
+
+def edge_cases(rng):
+    """The deterministic part of the edge stream: every fixed edge value (and a sample of aware timestamps around both ends
+    for every offset of EDGE_OFFSETS and every named zone) as one cell through type_formatter, as a column of an eager and of a
+    lazily backed frame through every renderer, and — the modelled kinds — against the model with the width clause."""
+    stamps = []
+    for z in EDGE_OFFSETS + edge_zones():
+        span = abs(z) if isinstance(z, int) else 14 * 60
+        for base, sign in ((datetime.datetime.max, -1), (datetime.datetime.min, 1)):
+            for back in (0, max(span - 1, 0), span, span + 1):
+                stamps.append(["datetime", _dt_fields(base + sign * datetime.timedelta(minutes=back)) + [z]])
+    stamps += [["datetime", DT_MIN], ["datetime", DT_MAX]]
+    groups = dict(EDGE_FIXED, datetime=stamps, beyond=EDGE_BEYOND)
+    out = []
+    for name, cells in groups.items():
+        out += [{"kind": "fmt", "cell": c, "maxcol": 40} for c in cells]
+        col = cells if len(cells) <= 12 else rng.sample(cells, 12)
+        col = [c if c[0] not in ("strrep", "bytesrep") else [c[0], [c[1][0], min(c[1][1], 3000)]] for c in col]
+        rows = [[["int", i], c] for i, c in enumerate(col)]
+        for lazy in (False, True):
+            for via in ("ascii", "display", "display_default", "markdown", "str", "repr", "notebook"):
+                out.append({"kind": "total", "names": ["id", name], "rows": rows, "limit": rng.choice([1, 3, 20]), "tt": rng.random() < 0.7, "lazy": lazy,
+                            "show_types": rng.random() < 0.5, "maxcol": rng.choice([5, 30, 60]), "dw": rng.choice([20, 80, 5000]), "coltypes": None,
+                            "via": via, "colorize": rng.random() < 0.5})
+            if name in EDGE_MODEL_KINDS:
+                mcol = [c for c in col if edge_ascii_ok(c)]
+                mcol = [c if c[0] not in ("strrep", "bytesrep") else [c[0], [c[1][0], min(c[1][1], 600)]] for c in mcol]
+                for via in ("ascii", "display"):
+                    out.append({"kind": "render", "names": ["id", name], "rows": [[["int", i], c] for i, c in enumerate(mcol)], "limit": 20, "tt": True,
+                                "lazy": lazy, "show_types": via == "display", "maxcol": rng.choice([8, 30, 60]), "dw": rng.choice([40, 5000]),
+                                "coltypes": None, "via": via})
+    return out
+
+
+def _has_int_beyond_str_digits(v):
+    import sys
+
+    import numpy
+
+    if isinstance(v, bool):
+        return False
+    if isinstance(v, int):
+        lim = sys.get_int_max_str_digits() if hasattr(sys, "get_int_max_str_digits") else 0
+        return lim > 0 and abs(v) >= 10**lim
+    if isinstance(v, dict):
+        return any(_has_int_beyond_str_digits(a) or _has_int_beyond_str_digits(b) for a, b in v.items())
+    if isinstance(v, (list, tuple, set, frozenset)):
+        return any(_has_int_beyond_str_digits(x) for x in v)
+    if isinstance(v, numpy.ndarray) and v.dtype == object:
+        return _has_int_beyond_str_digits(v.tolist())
+    return False
+
+
+def k_int_beyond_str_digits(case, failure):
+    """A cell is (or holds) an int with more digits than str() converts (sys.get_int_max_str_digits()): ValueError in every renderer."""
+    if not str(failure.get("clause", "")).startswith("rendering raised ValueError"):
+        return False
+    try:
+        cells = [case["cell"]] if case.get("kind") == "fmt" else [c for r in case.get("rows", []) for c in r]
+        return any(_has_int_beyond_str_digits(mk(c)) for c in cells)
+    except Exception:  # noqa
+        return False
+
+
 def gen_td_case(rng):
     c = gen_td64(rng, nat=0.0)
     return {"kind": "td", "cell": c[1]}
@@ -1557,6 +1744,9 @@ def gen_markdown_case(rng):
         r = rng.random()
         if r < 0.15:
             return ["none"]
+        if rng.random() < 0.08:
+            c = gen_edge_cell(rng, small=True)
+            return c if model_text_ok(["str", str(mk(c))]) else ["none"]
         if r < 0.4:
             return ["int", rng.choice([0, 7, -300, 123456, 10**12])]
         if r < 0.5:
@@ -1647,12 +1837,17 @@ def run(ctx):
     ctx.note("assumptions", [
         "Python's str()/strftime/f-string text of numbers, dates, containers and objects, len(str(v)), unicodedata.east_asian_width and bytes.decode "
         "are parameters of the model: compared on every run, not modelled",
-        "limit >= 1, max_column_width >= 1, display_width >= 1; integers stay below CPython's 4300-digit str() limit",
+        "limit >= 1, max_column_width >= 1, display_width >= 1; integers beyond CPython's str() digit limit (4300) are generated and fail in every "
+        "renderer: the open finding C18-K01",
         "the footer '[ n rows x m columns ]' of str() is not part of the property (it reports 0 rows for a lazily backed frame)",
     ])
     check_width_table(ctx)
     check_py_facts(ctx)
     evaluate(ctx, [{"kind": "fmt", "cell": c, "maxcol": 40} for c in EXOTIC])
+    edge = [c for c in edge_cases(ctx.rng) if valid_case(c)]
+    ctx.note("edge_values", "%d deterministic edge-value cases (one cell through type_formatter; a column of an eager / lazily backed frame through "
+             "every renderer; modelled kinds against the model with the width clause), plus edge cells mixed into the random streams" % len(edge))
+    evaluate(ctx, edge)
     evaluate(ctx, [c for c in regression_cases() if valid_case(c)])
     nmax, lmax = ctx.scale((25, 12), (40, 20))
     batch = list(sel_exhaustive(nmax, lmax))
@@ -1701,4 +1896,4 @@ def replay(ctx, case):
     evaluate(ctx, [case])
 
 
-KNOWN_PREDICATES = {}
+KNOWN_PREDICATES = {"int_beyond_str_digits": k_int_beyond_str_digits}
